@@ -57,6 +57,13 @@ func corpusC08() []*case08 {
 			{Op: "rbrealloc", Fail: true},
 			{Op: "drop", Idx: []int{1}, Direct: true},
 			{Op: "drop", Idx: []int{0}}}},
+		// rollback of a release: the released resources are re-added with Incr
+		{Prop: "C08", Cap: flatNode(2, 1000), Ops: []op08{
+			{Op: "alloc", K: 1, Req: &reqJ{Bind: true, CR: nano, MR: 100}},
+			{Op: "alloc", K: 1, Req: &reqJ{CR: nano / 2, MR: 300}},
+			{Op: "drop", Idx: []int{1}},
+			{Op: "readd", W: &wres{CR: nano / 2, MR: 300, CM: map[string]int{}, NM: map[string]int64{}}, Restores: ip(2)},
+			{Op: "drop", Idx: []int{0, 1}}}},
 	}
 }
 
